@@ -47,6 +47,11 @@ def hourly_usage(T, idx, curve, noise, tag):
     mon, dow = idx.month.to_numpy(), idx.dayofweek.to_numpy()
     odd = np.where((mon == 7) & (dow == 6), 1.5 * np.exp(-(((hr - 4) / 2.0) ** 2)) - 0.6 * occ, 0.0) + \
         np.where((mon == 2) & (dow == 2), -0.5 * np.exp(-(((hr - 12) / 3.0) ** 2)), 0.0)
+    if tag.endswith("/other"):
+        # the `other` meter has twelve load-shape groups (two-month blocks x weekday / weekend), each with its own daily peak hour:
+        # how many temporal clusters describe it best depends on how many the settings allow
+        grp = ((mon - 1) // 2) * 2 + (dow >= 5)
+        odd = odd + 1.5 * np.exp(-0.5 * ((hr - (5.0 + 1.5 * grp)) / 1.5) ** 2)
     return c + hb * np.maximum(hbp - T, 0) + cb * np.maximum(T - cbp, 0) + 0.6 * occ + odd + _rng("U" + tag).normal(0, noise, len(T))
 
 
